@@ -493,7 +493,7 @@ fn gadget_programs(ctx: &Ctx, rec: &mut Rec, zoo: &[SE]) {
                         }
                         "prog: conditionally_select" => {
                             let cond = *small % 2 == 0;
-                            let cv = wb(&cs, cond).map_err(se)?;
+                            let cv = crate::r1::guard_as(&cs, cond, [0u8, 1, 2, 5, 4, 1][(*small as usize / 2) % 6]).map_err(se)?;
                             let r = (ElementVar::conditionally_select(&cv, &regs[i].0, &bv).map_err(se)?, if cond { regs[i].1 } else { bn });
                             regs.push(r);
                         }
